@@ -1973,7 +1973,20 @@ class _GroupElem(ABC):
 
         # Retrieve the elements associated with these nodes
         all_elements = self.Get_Elements_Nodes(closest_nodes, exclusively=False)
-        unique_elements = np.unique(all_elements)
+
+        # The closest node of a point need not belong to the element that contains it
+        # (a node of a neighbouring element can be as close, or closer, than the element's own nodes).
+        # Add every element whose center lies within the largest element radius of a point.
+        coord_e = self.coord[self._global_to_local_nodes[self.connect]]
+        center_e = coord_e.mean(axis=1)
+        radius = np.linalg.norm(coord_e - center_e[:, np.newaxis], axis=2).max()
+        tree = spatial.KDTree(center_e)
+        near = tree.query_ball_point(
+            np.asarray(coordinates_n, dtype=float), radius * (1 + 1e-9)
+        )
+        near_elements = np.unique(np.concatenate([*near, []])).astype(int)
+
+        unique_elements = np.unique(np.concatenate((all_elements, near_elements)))
 
         return unique_elements
 
